@@ -5,7 +5,12 @@
 //!   qv-harness answer <stream>            (requests on stdin, answers on stdout; used for replay)
 mod designer;
 mod docgen;
+mod dumpenv;
+mod ast;
 mod env;
+mod irser;
+mod ledger;
+mod proggen;
 mod propgen;
 mod rng;
 mod sexp;
@@ -34,7 +39,7 @@ pub trait Stream: Sync {
     fn answer(&self, req: &Sexp) -> Sexp;
 }
 
-fn panic_message(e: Box<dyn std::any::Any + Send>) -> String {
+pub fn panic_message(e: Box<dyn std::any::Any + Send>) -> String {
     if let Some(s) = e.downcast_ref::<&str>() {
         (*s).to_owned()
     } else if let Some(s) = e.downcast_ref::<String>() {
@@ -53,6 +58,10 @@ pub fn safe_answer(stream: &dyn Stream, req: &Sexp) -> Sexp {
 
 fn main() {
     let args: Vec<String> = std::env::args().collect();
+    if args.len() == 2 && args[1] == "dump-env" {
+        print!("{}", dumpenv::dump());
+        return;
+    }
     if args.len() < 3 {
         eprintln!("usage: qv-harness gen|answer <stream> [--seed S] [--tier T] [--out FILE]");
         std::process::exit(2);
